@@ -27,6 +27,10 @@ def local_bindings(fi: FuncInfo) -> dict[str, list[ast.expr]]:
                     out.setdefault(t.id, []).append(n.value)
         elif isinstance(n, ast.AnnAssign) and isinstance(n.target, ast.Name) and n.value is not None:
             out.setdefault(n.target.id, []).append(n.value)
+        elif isinstance(n, (ast.For, ast.comprehension)) and isinstance(n.target, ast.Name) and isinstance(n.iter, (ast.Tuple, ast.List)):
+            # for d in (self.a, self.b): d.clear()  -- the loop variable aliases each listed element in turn
+            for el in n.iter.elts:
+                out.setdefault(n.target.id, []).append(el)
     return out
 
 
@@ -96,7 +100,7 @@ def effects_of(idx: Index, fi: FuncInfo) -> list[Effect]:
                 for n in ast.walk(fi.node):
                     hit = None
                     if isinstance(n, ast.Call) and isinstance(n.func, ast.Attribute) and n.func.attr in MUTATORS and isinstance(n.func.value, ast.Name) and n.func.value.id == name:
-                        hit = f"{name}.{n.func.attr}() via alias"
+                        hit = f".{n.func.attr}() via alias {name}"
                     if isinstance(n, (ast.Assign, ast.AugAssign)):
                         for t in (n.targets if isinstance(n, ast.Assign) else [n.target]):
                             if isinstance(t, ast.Subscript) and isinstance(t.value, ast.Name) and t.value.id == name:
